@@ -1,16 +1,29 @@
 #!/bin/bash
-# Runs the property's check against seeded changes:  tools/run_seeded.sh [--tier T] <id>...   (id = C20-1 ...)
-TIER=quick; if [ "$1" = "--tier" ]; then TIER=$2; shift 2; fi
-for id in "$@"; do
-  d=/verif/seeded/$id; prop=${id%%-*}
-  if ! git -C /repo diff --quiet; then echo "/repo dirty"; exit 2; fi
-  if ! git -C /repo apply "$d/patch.diff" 2>/tmp/apply.err; then
-     if ! git -C /repo apply -3 "$d/patch.diff" 2>>/tmp/apply.err; then echo "$id: PATCH DOES NOT APPLY to current /repo: $(head -2 /tmp/apply.err)"; git -C /repo checkout -- .; continue; fi
-     git -C /repo reset -q
+# Runs a property's check against seeded changes, each in its own scratch worktree of /repo
+# (outside /repo and /verif) through a shadow copy of the simulator workspace (VERIF_REPO).
+#   tools/run_seeded.sh [--tier T] [--jobs N] [--prop P] <id>...      (id = C20-1 ...; patch = seeded/<id>/patch.diff
+#                                                                       or mutants/<id>.patch)
+TIER=quick; JOBS=1; PROP=""
+while [[ "${1:-}" == --* ]]; do
+  case "$1" in --tier) TIER=$2; shift 2;; --jobs) JOBS=$2; shift 2;; --prop) PROP=$2; shift 2;; *) echo "bad flag"; exit 2;; esac
+done
+one() {
+  id=$1; TIER=$2; PROPO=$3
+  if [ -f /verif/seeded/$id/patch.diff ]; then patch=/verif/seeded/$id/patch.diff; logdir=/verif/seeded/$id; else patch=/verif/mutants/$id.patch; logdir=/verif/work/mutant-logs; mkdir -p $logdir; fi
+  prop=${PROPO:-${id%%-*}}
+  wt=/tmp/sw-$id-$$
+  git -C /repo worktree add -q --detach $wt HEAD || { echo "$id: cannot create worktree"; return; }
+  if ! git -C $wt apply "$patch" 2>/tmp/apply-$id.err; then
+    if ! git -C $wt apply -3 "$patch" 2>>/tmp/apply-$id.err; then echo "$id: PATCH DOES NOT APPLY: $(head -2 /tmp/apply-$id.err)"; git -C /repo worktree remove --force $wt; return; fi
   fi
   start=$(date +%s)
-  (cd /verif && ./check $prop $TIER) > $d/detect-$TIER.log 2>&1; rc=$?
-  git -C /repo checkout -- . ; git -C /repo clean -fdq -- rcgen rustls-cert-gen
-  n=$(grep -c "^VIOLATION property=$prop " $d/detect-$TIER.log)
-  echo "$id: $prop $TIER rc=$rc violations=$n ($(( $(date +%s) - start ))s) $(grep -m1 'violation class' $d/detect-$TIER.log | cut -c1-220)"
-done
+  (cd /verif && VERIF_REPO=$wt ./check $prop $TIER) > $logdir/detect-$prop-$TIER-$id.log 2>&1; rc=$?
+  n=$(grep -c "^VIOLATION property=$prop " $logdir/detect-$prop-$TIER-$id.log)
+  echo "$id: $prop $TIER rc=$rc violations=$n ($(( $(date +%s) - start ))s) $(grep -m1 'violation class' $logdir/detect-$prop-$TIER-$id.log | cut -c1-240)"
+  shadow=$(python3 -c "import hashlib,os;print(hashlib.sha256(os.path.realpath('$wt').encode()).hexdigest()[:10])")
+  rm -rf /verif/work/shadow-$shadow
+  git -C /repo worktree remove --force $wt
+}
+export -f one
+printf '%s\n' "$@" | xargs -P $JOBS -I{} bash -c "one {} $TIER '$PROP'"
+git -C /repo worktree prune
